@@ -75,6 +75,12 @@ pub fn c19(ctx: &mut Ctx) -> R {
         r1.update(&data);
         let mut r2 = RollingHash::new();
         r2.update_by_iter(data.iter().copied());
+        let (it, odd_name) = gen::odd_iter(&mut ctx.rng, &data);
+        let mut r4 = RollingHash::new();
+        r4.update_by_iter(it);
+        let (it, odd_name_f) = gen::odd_iter(&mut ctx.rng, &data);
+        let mut f4 = PartialFNVHash::new();
+        f4.update_by_iter(it);
         let mut r3 = RollingHash::new();
         let mut f1 = PartialFNVHash::new();
         f1.update(&data);
@@ -86,7 +92,15 @@ pub fn c19(ctx: &mut Ctx) -> R {
         while pos < data.len() {
             let k = ctx.rng.range(1, 9).min(data.len() - pos);
             let chunk = &data[pos..pos + k];
-            match ctx.rng.below(5) {
+            match ctx.rng.below(7) {
+                5 | 6 => {
+                    // iterators with inexact size hints, on objects that are already in use
+                    let (it, _) = gen::odd_iter(&mut ctx.rng, chunk);
+                    r3.update_by_iter(it);
+                    let (it, _) = gen::odd_iter(&mut ctx.rng, chunk);
+                    f3.update_by_iter(it);
+                    forms.push('o');
+                }
                 0 => {
                     r3.update(chunk);
                     f3.update(chunk);
@@ -125,7 +139,7 @@ pub fn c19(ctx: &mut Ctx) -> R {
             }
             pos += k;
         }
-        for (name, got) in [("update", r1.value()), ("update_by_iter", r2.value()), ("mixed forms", r3.value())] {
+        for (name, got) in [("update", r1.value()), ("update_by_iter", r2.value()), ("mixed forms (o = iterator with an inexact size hint)", r3.value()), (odd_name, r4.value())] {
             ctx.check("rolling-update-forms", got == want_r, || {
                 format!(
                     "input: {}\nform: {} (chunk forms {})\nreal code: RollingHash value {:#010x}\noracle: {:#010x}",
@@ -133,7 +147,7 @@ pub fn c19(ctx: &mut Ctx) -> R {
                 )
             })?;
         }
-        for (name, got) in [("update", f1.value()), ("update_by_iter", f2.value()), ("mixed forms", f3.value())] {
+        for (name, got) in [("update", f1.value()), ("update_by_iter", f2.value()), ("mixed forms (o = iterator with an inexact size hint)", f3.value()), (odd_name_f, f4.value())] {
             ctx.check("fnv-update-forms", got == want_f, || {
                 format!(
                     "input: {}\nform: {} (chunk forms {})\nreal code: PartialFNVHash value {}\noracle: {}",
